@@ -3,8 +3,8 @@ from analysis.facts import norm
 from analysis.cfg import Cfg
 from analysis.flow import DefUse, backward, find_calls, callee_is, callee_ends, op_local, op_const, bool_branch, variant_arms, static_of, field_chain
 from analysis.linear import Linear
-from analysis.table import describe_val
-from rules.common import need
+from analysis.table import describe_val, PathWalker
+from rules.common import need, unit, inl, owners
 
 SCHED = "scheduler::Scheduler"
 OLQ = "common::ordered_work_steal::OrderedLocalQueue"
@@ -248,11 +248,12 @@ def delay_rule(run, f, rid):
 
 def cancel_rule(run, f, rid):
     run.rule(rid, "a coroutine cancelled before its next resumption is never resumed; only its own request is consumed, and nothing else clears requests", floor=2, template="T2/T9")
-    b = need(run, rid, f, SCHED + "::do_schedule")
+    b = unit(run, rid, f, SCHED + "::do_schedule")     # a helper cut out of the loop body is part of it
     if b is None:
         return
     cfg = Cfg(b)
     du = DefUse(b)
+    pw = PathWalker(b)
     res = find_calls(b, callee_is(CORO + "::resume"))
     pp = find_calls(b, callee_is(OLQ + "::pop"))
     ct = [(x, t) for (x, t) in find_calls(b, callee_is("dashmap::DashSet::contains")) if static_of(b, du, t["args"][0]) == CANCEL_CO]
@@ -269,9 +270,10 @@ def cancel_rule(run, f, rid):
             why.append("cancel test not branched on")
         else:
             tbb, fbb, _ = br
-            if not cfg.dominates(fbb, res[0][0]):
+            # feasible paths only: the test may sit in a helper that reports its outcome as a bool
+            if not cfg.dominates(fbb, res[0][0]) and pw.escapes(cfg.after(pp[0][0])[0], {fbb}, exits={res[0][0]}):
                 why.append("resume() is not dominated by the not-cancelled edge")
-            if res[0][0] in cfg.reachable({tbb}, avoid={pp[0][0]}):
+            if res[0][0] in cfg.reachable({tbb}, avoid={pp[0][0]}) and pw.escapes(tbb, {pp[0][0]}, exits={res[0][0]}):
                 why.append("a cancelled coroutine can still be resumed")
             rm = [(x, t) for (x, t) in find_calls(b, callee_is("dashmap::DashSet::remove")) if static_of(b, du, t["args"][0]) == CANCEL_CO]
             if len(rm) != 1 or not cfg.dominates(tbb, rm[0][0]):
@@ -293,6 +295,13 @@ def cancel_rule(run, f, rid):
                 if static_of(ob, d2, t["args"][0]) == CANCEL_CO:
                     muts.setdefault(ob.npath, set()).add(c.rsplit("::", 1)[1])
     want = {SCHED + "::do_schedule": {"remove"}, SCHED + "::try_cancel_coroutine": {"insert"}}
+    # a mutation inside a private helper counts for the function(s) it is entered from
+    for fn in [k for k in muts if k not in want]:
+        own = owners(f, fn, set(want))
+        if own:
+            ops = muts.pop(fn)
+            for o in own:
+                muts.setdefault(o, set()).update(ops)
     if muts == want:
         run.ok(rid, "CANCEL_COROUTINES/mutators", {k: sorted(v) for k, v in muts.items()})
     else:
